@@ -286,8 +286,9 @@ def minimise(mod, scenario, tape, clause, budget=300):
 def report_violation(mod, prop, rec, v, count, out):
     scenario, tape = rec["scenario"], rec["tape"]
     clause = v["clause"]
-    os.makedirs(os.path.join(ROOT, "replays"), exist_ok=True)
-    base = os.path.join(ROOT, "replays", f"{prop}-{clause}-{rec['seed']}")
+    rdir = os.environ.get("VERIF_REPLAY_DIR") or os.path.join(ROOT, "replays")
+    os.makedirs(rdir, exist_ok=True)
+    base = os.path.join(rdir, f"{prop}-{clause}-{rec['seed']}")
     full = {
         "property": prop,
         "engine": getattr(mod, "ENGINE", ""),
@@ -382,8 +383,9 @@ def write_evidence(mod, prop, tier, base_seed, n, total, wall, known_hits, n_unk
         "wall_s": round(wall, 2),
         "violations": n_unknown,
     }
-    os.makedirs(os.path.join(ROOT, "evidence"), exist_ok=True)
-    p = os.path.join(ROOT, "evidence", f"{prop}.json")
+    edir = os.environ.get("VERIF_EVIDENCE_DIR") or os.path.join(ROOT, "evidence")
+    os.makedirs(edir, exist_ok=True)
+    p = os.path.join(edir, f"{prop}.json")
     with open(p + ".tmp", "w") as f:
         json.dump(ev, f, indent=1, sort_keys=True, default=str)
     os.replace(p + ".tmp", p)
